@@ -32,6 +32,37 @@ def gen(tier, rng):
     return out, dict(kind='random histories over the shared op alphabet, run on Stdfs (sandbox directory, independent std::fs observer) and on Memfs', histories=len(out), max_len=ln, exhaustive=False)
 
 
+def grid(tier, rng):
+    """(state, call) grid: hand-built trees of the bounded namespace x every method x every path of the namespace"""
+    hx = vlib.hx
+    N = 'new eHOME=2f68'
+    T = [
+        [],
+        ['mkdir_p ' + hx('/a/b'), 'write_all ' + hx('/a/f') + ' ' + hx('hi\n'), 'write_all ' + hx('/g') + ' ' + hx('x')],
+        ['mkdir_p ' + hx('/a/b'), 'write_all ' + hx('/a/f') + ' ' + hx('hi'), 'symlink ' + hx('/l') + ' ' + hx('/a'), 'symlink ' + hx('/lf') + ' ' + hx('/a/f')],
+        ['mkdir_p ' + hx('/a/b'), 'write_all ' + hx('/a/b/f') + ' ' + hx('1\n2\n'), 'symlink ' + hx('/a/l') + ' ' + hx('b'), 'symlink ' + hx('/a/b/up') + ' ' + hx('../..'), 'set_cwd ' + hx('/a')],
+        ['mkdir_m ' + hx('/a') + ' 700', 'mkfile_m ' + hx('/a/f') + ' 600', 'mkfile_m ' + hx('/x') + ' 755', 'mkdir_p ' + hx('/b'), 'symlink ' + hx('/b/l') + ' ' + hx('/x')],
+        ['mkdir_p ' + hx('/a/a/a'), 'write_all ' + hx('/a/a/a/f') + ' ' + hx('deep'), 'set_cwd ' + hx('/a/a')],
+        ['write_all ' + hx('/f') + ' xfffe', 'mkdir_p ' + hx('/b'), 'symlink ' + hx('/b/lf') + ' ' + hx('/f'), 'symlink ' + hx('/ld') + ' ' + hx('/b')],
+    ]
+    P = ['/', '/a', '/a/b', '/a/f', '/g', '/l', '/lf', '/a/l', '/b', '/b/l', '/x', '/f', '/ld', '/b/lf', '/zz', '/a/zz', 'a', 'f', '../a', '.', 'b/../f', '/a//b/', '/a/b/up', '/a/a/a']
+    one = ['mkfile', 'mkdir_p', 'read_all', 'read_lines', 'read', 'remove', 'remove_all', 'readlink', 'readlink_abs', 'set_cwd', 'abs', 'exists', 'is_file', 'is_dir', 'is_symlink',
+           'is_symlink_dir', 'is_symlink_file', 'is_exec', 'is_readonly', 'mode', 'paths', 'dirs', 'files', 'all_paths', 'all_dirs', 'all_files']
+    H = []
+    for tr in T:
+        calls = []
+        for p in P:
+            calls += [f'{o} {hx(p)}' for o in one]
+            calls += [f'mkfile_m {hx(p)} 640', f'mkdir_m {hx(p)} 750', f'chmod {hx(p)} 600', f'chmod {hx(p)} 755', f'write_all {hx(p)} {hx("new")}', f'append_all {hx(p)} {hx("+")}']
+            for q in ['/a', '/zz', '/a/b', '/b/n', 'n', '/l', '/g']:
+                calls += [f'copy {hx(p)} {hx(q)}', f'move_p {hx(p)} {hx(q)}', f'symlink {hx(p)} {hx(q)}']
+        if tier == 'quick':
+            calls = rng.sample(calls, 260)
+        for c in calls:
+            H.append([N] + tr + [c, 'all_paths ' + hx('/')])
+    return H
+
+
 def run_mode(mode, hists):
     chunks = [hists[i::vlib.NCPU] for i in range(vlib.NCPU)]
 
@@ -53,6 +84,14 @@ def strip_abs(d):
         k, kind, perm, uid, gid, tgt, data = r.split(':')
         out.append(f'{k}:{kind[0]}:{perm}:{tgt}:{data}')
     return '|'.join(out)
+
+
+def norm_cwd(d):
+    """the observer prints `?` (3f) when the process cwd no longer exists; the kernel model keeps the key"""
+    cwd, nodes = parse(d)
+    if cwd != '3f' and (cwd not in nodes or nodes[cwd][1] != 'd'):
+        return 'cwd=3f' + d[d.index('|'):] if '|' in d else 'cwd=3f'
+    return d
 
 
 def parse(d):
@@ -90,8 +129,10 @@ def in_domain(pre, req):
     for k, f in nodes.items():
         if f[1] == 'l' and (f[3] not in nodes or nodes[f[3]][1] == 'l'):
             return False
-    for a in req.split(' ')[1:]:
-        if a.startswith('x') and req.split(' ')[0] not in ('write_all', 'append_all') or (a.startswith('x') and a is req.split(' ')[1]):
+    toks = req.split(' ')
+    for ai, a in enumerate(toks[1:]):
+        # path arguments: every x-argument, except the data argument of write_all / append_all
+        if a.startswith('x') and (ai == 0 or toks[0] not in ('write_all', 'append_all')):
             try:
                 p = bytes.fromhex(a[1:]).decode()
             except Exception:
@@ -113,11 +154,57 @@ def in_domain(pre, req):
     return True
 
 
-def classify(req, so, mo, pre):
+def stale_link_kinds(mem_abs):
+    """Memfs records a link's kind when the link is created: links whose recorded kind differs from
+    the kind of the entry they resolve to now (keys, hex)"""
+    recs = {}
+    for r in mem_abs.split('|')[1:]:
+        f = r.split(':')
+        recs[f[0]] = f
+    out = set()
+    for k, f in recs.items():
+        if f[1] in ('ld', 'lf'):
+            tk = recs.get(f[5], [None, None])[1]
+            if tk in ('d', 'f') and tk != f[1][1]:
+                out.add(k)
+    return out
+
+
+def classify(req, so, mo, pre, mem_pre=None):
     """known divergence classes (findings), by (pre-state, call)"""
     t = req.split(' ')
     op = t[0]
     cwd, nodes = parse(pre)
+    if mem_pre:
+        stale = stale_link_kinds(mem_pre)
+        keys = []
+        for a in t[1:3]:
+            if a.startswith('x'):
+                try:
+                    keys.append(lexical(cwd, bytes.fromhex(a[1:]).decode()))
+                except Exception:
+                    pass
+        # the call addresses a link with a stale kind, or walks a directory that contains one
+        if any(k and (k in stale or any(s_.startswith(k if k == '2f' else k + '2f') for s_ in stale)) for k in keys):
+            return 'link_kind_recorded_at_creation'
+    if op in ('mkfile_m', 'mkdir_m', 'chmod') and len(t) > 2:
+        try:
+            m = int(t[2], 8)
+            if m == 0:
+                return 'chmod_zero'
+            if m & ~0o7777:
+                return 'mode_type_bits'
+        except ValueError:
+            pass
+    if op in ('copy', 'copy_b') and vlib._copy_into_itself(req, 'x ## cwd ' + cwd):
+        return 'copy_into_own_subtree'
+    if op in ('remove', 'remove_all', 'move_p') and len(t) > 1 and t[1].startswith('x'):
+        try:
+            k0 = lexical(cwd, bytes.fromhex(t[1][1:]).decode())
+        except Exception:
+            k0 = None
+        if k0 and k0 != '2f' and (cwd == k0 or cwd.startswith(k0 + '2f')):
+            return 'cwd_removed'
     k = None
     if len(t) > 1 and t[1].startswith('x'):
         try:
@@ -133,7 +220,28 @@ def classify(req, so, mo, pre):
     if op == 'readlink_abs' and kind in ('f', 'd'):
         return 'S3_readlink_abs_non_link'
     if op == 'set_cwd' and kind == 'l':
-        return 'S6_set_cwd_link'
+        return 'S9_set_cwd_link'
+    if op == 'remove' and k:
+        comps = k[2:].split('2f') if k != '2f' else []
+        for i in range(1, len(comps)):
+            anc = '2f' + '2f'.join(comps[:i])
+            if anc in nodes and nodes[anc][1] == 'f':
+                return 'remove_below_file'
+    if op in ('mkdir_p', 'mkdir_m', 'mkfile', 'mkfile_m', 'write_all', 'append_all', 'copy', 'move_p', 'symlink') and any(int(f[2], 8) & 0o7000 for f in nodes.values() if f[1] == 'd'):
+        return 'special_mode_bits'
+    if op in ('copy', 'move_p') and len(t) > 2 and t[2].startswith('x'):
+        try:
+            k2 = lexical(cwd, bytes.fromhex(t[2][1:]).decode())
+        except Exception:
+            k2 = None
+        if op == 'copy' and k2 and any(f[1] == 'l' and (f[0] == k2 or f[0].startswith(k2 if k2 == '2f' else k2 + '2f')) for f in nodes.values()):
+            return 'copy_dst_link'
+        if op == 'copy' and so.startswith('ok') and mo.startswith('ok'):
+            return 'copy_keeps_dst_mode'
+        if op == 'move_p' and (kind == 'l' or any(f[1] == 'l' and k and f[0].startswith(k + '2f') for f in nodes.values())):
+            return 'S8_move_links'
+        if op == 'move_p' and so.startswith('ok') and mo == 'err ExistsAlready':
+            return 'move_onto_existing_dir'
     if op in ('chmod', 'mkfile_m') and (kind == 'l' or any(f[1] == 'l' and (f[0].startswith((k or '') + '2f') or k == '2f') for f in nodes.values())):
         return 'chmod_links'
     if op in ('mode', 'is_exec', 'is_readonly') and kind == 'l':
@@ -206,19 +314,26 @@ def run(tier, seed, replay):
         geninfo = dict(kind='replay')
     else:
         H, geninfo = gen(tier, rng)
+        G = grid(tier, rng)
+        geninfo['grid_histories'] = len(G)
+        H = G + H
         # witnesses of the known findings (open and fixed) run first, as a corpus
         H = [f['witness_history'] for f in known_all if f.get('witness_history')] + H
     S = run_mode('stdfs', H)
     M = run_mode('memfs', H)
+    import shutil
+    shutil.rmtree('/verif/work/sbx', ignore_errors=True)      # the emptied chroot directories of the harness processes
     D = run_model(H) if okl else [[''] * len(h) for h in H]
     evaluations = judged = corr_steps = 0
-    new_fail, corr_fail, hits, samples, seen, cls_hist = [], [], {}, [], set(), {}
+    new_fail, corr_fail, hits, samples, seen, cls_hist, cuts = [], [], {}, [], set(), {}, {}
     for h, s, m, d in zip(H, S, M, D):
         pre = 'cwd=2f|2f:d:755:-:'
+        mem_pre = None
         model_alive = True
         for i, (req, x, y, z) in enumerate(zip(h, s, m, d)):
             if req.startswith('new'):
                 pre = 'cwd=2f|2f:d:755:-:'
+                mem_pre = None
                 continue
             evaluations += 1
             if ' ## ' not in x or ' ## ' not in y:
@@ -228,19 +343,30 @@ def run(tier, seed, replay):
             md = strip_abs(vlib.abs_of_dump(y))
             f = z.split('\t')
             lean_cls = f[2] if len(f) > 2 else '?'
-            if not in_domain(pre, req) or lean_cls in ('dom_links', 'dom_arg'):
-                break
             t0 = req.split(' ')
-            if t0[0] in ('remove', 'remove_all', 'move_p', 'copy', 'symlink', 'chmod', 'mkfile_m', 'write_all', 'append_all', 'mkfile') and any(
-                    a.startswith('x') and lexical(parse(pre)[0], bytes.fromhex(a[1:]).decode('utf8', 'replace')) == '2f' for a in t0[1:3]):
-                break      # the sandbox root stands in for '/': mutating it is outside the sandbox
+            outside = (not in_domain(pre, req)) or lean_cls == 'dom_arg' or (
+                # the sandbox root stands in for '/': mutating it is outside the sandbox
+                t0[0] in ('remove', 'remove_all', 'move_p', 'copy', 'symlink', 'chmod', 'mkfile_m', 'write_all', 'append_all', 'mkfile') and any(
+                    a.startswith('x') and lexical(parse(pre)[0], bytes.fromhex(a[1:]).decode('utf8', 'replace')) == '2f' for a in t0[1:3]))
+            if outside:
+                # not judged; the history continues only while the two real backends still hold the same tree
+                cuts['outside_domain'] = cuts.get('outside_domain', 0) + 1
+                if sd != md:
+                    cuts['diverged_after_outside_step'] = cuts.get('diverged_after_outside_step', 0) + 1
+                    break
+                if model_alive and ' ## ' in f[0] and norm_cwd(strip_abs(f[0].split(' ## ', 1)[1])) != sd:
+                    model_alive = False
+                pre = sd
+                mem_pre = vlib.abs_of_dump(y)
+                continue
             # (1) correspondence: the real Stdfs against the Lean model of Stdfs over the kernel model
             if model_alive and ' ## ' in f[0]:
                 zo, zd = f[0].split(' ## ', 1)
-                zd = strip_abs(zd)
+                zd = norm_cwd(strip_abs(zd))
                 corr_steps += 1
-                if zo == 'err Other' and lean_cls == 'uncovered':
-                    model_alive = False           # not modelled (entry / entries / handles / self-nested copy)
+                special = any(int(fz[2], 8) & 0o7000 for fz in parse(pre)[1].values())
+                if (zo == 'err Other' and lean_cls == 'uncovered') or special:
+                    model_alive = False           # not modelled (entry / entries / handles / copy through links; setuid/setgid/sticky inheritance)
                 elif not (same_result(so, zo) and sd == zd):
                     if t0[0] in ('copy', 'copy_b') and vlib._copy_into_itself(req, 'x ## cwd ' + parse(pre)[0]):
                         model_alive = False
@@ -253,7 +379,8 @@ def run(tier, seed, replay):
             same_out = same_result(so, mo)
             same_tree = sd == md
             if not (same_out and same_tree):
-                cls = lean_cls if lean_cls in LEAN_CLASSES else classify(req, so, mo, pre)
+                cls = lean_cls if lean_cls in LEAN_CLASSES else classify(req, so, mo, pre, mem_pre)
+                cls = {'S10_cwd_removed': 'cwd_removed'}.get(cls, cls)
                 cls_hist[cls or 'unclassified'] = cls_hist.get(cls or 'unclassified', 0) + 1
                 if cls and cls in known:
                     hits[cls] = hits.get(cls, 0) + 1
@@ -264,8 +391,10 @@ def run(tier, seed, replay):
                                          stdfs=x[:1500], memfs=mo + ' ## ' + md[:1500], cls=cls))
                 break
             pre = sd
+            mem_pre = vlib.abs_of_dump(y)
         if len(samples) < 4 and len(h) > 3:
             samples.append([vlib.pretty_req(r) for r in h[:8]])
+    json.dump(dict(new_fail=new_fail[:3000], corr_fail=corr_fail[:3000]), open('/verif/work/c02_debug.json', 'w'), indent=1)
     # every open known finding is replayed through its witness (first histories): it must have been hit
     for fid, f in known.items():
         if fid in hits:
@@ -290,5 +419,5 @@ def run(tier, seed, replay):
                     '(1) real Stdfs vs Lean Stdfs model: success-or-failure, returned value, observed tree; (2) real Stdfs vs real Memfs: the same three (names, kinds, bytes, link targets, permission bits), '
                     'as long as the pre-state and the arguments are inside the domain of the property (no intermediate symlink component, every symlink resolves to an existing non-link); '
                     'divergences are classified by the decidable domain of the theorem (driver column) and must be open known findings; distinct = distinct (pre-state, call) pairs',
-               samples=samples, known_class_hits=hits, divergence_classes=cls_hist, spec_failures_new=len(new_fail), exhaustive=False, histories=len(H), generator=geninfo, notes=V.notes)
+               samples=samples, known_class_hits=hits, divergence_classes=cls_hist, skipped=cuts, spec_failures_new=len(new_fail), exhaustive=False, histories=len(H), generator=geninfo, notes=V.notes)
     return V.finish('proof', cov, assumptions)
